@@ -168,6 +168,42 @@ fn run_prop(prop: &str, tier: Tier, seed: u64) -> i32 {
             props::keys::c14(&ctx);
             ctx.finish(tier.pick(100, 1000))
         }
+        "C07" => {
+            let ctx = Ctx::new(
+                "C07",
+                tier,
+                seed,
+                "fault_enumeration",
+                "generated workloads (appends, batches spanning rotations, a few consuming reads; all fsync schedules; fd and mmap; Strict and AtLeastOnce) are first run under an H1 trace to enumerate their foreground I/O events (block write, batch SQE, submit, flush, publish, file create/set_len/fsync, dir fsync, index tmp write/fsync/rename); then the workload is re-executed once per selected event k with the process terminated (_exit) right before event k - or, for block writes, after a generated prefix of the write (torn write) - and a fresh process reopens and drains. Quick: <=16 (tiny) / <=12 (block) crash points per workload, stratified (first/last event of every multi-event operation first); thorough: up to 400 per workload, i.e. normally all. Oracle: reopen succeeds; per topic the drained stream is acknowledged-unconsumed entries in order followed by an in-order subset of the in-flight operation's entries, nothing else. Each evaluation = one (workload, crash point); non-trivial = the crash point lies strictly inside an operation that performs >=2 events, or is a torn write.",
+                &["process-crash model: completed syscalls (and completed stores into a shared mapping) persist; power loss is C10", "background-thread I/O (marker persister, fsync worker) is not part of the foreground event numbering"],
+            );
+            props::crash::c07(&ctx);
+            ctx.finish(tier.pick(100, 2000))
+        }
+        "C08" => {
+            let ctx = Ctx::new(
+                "C08",
+                tier,
+                seed,
+                "fault_enumeration",
+                "workloads ending in / containing batch appends of 1..2000 entries spanning 1-3 blocks; crash (process termination via H1) before every I/O event of every batch operation: per-entry block writes on the mmap path, j-of-n io_uring submissions on the fd path (the first j queued writes are carried out, then the process dies), submit, flushes, offset publish. Oracle: after recovery the topic holds the acknowledged entries followed by all or none of the in-flight batch. Each evaluation = one (workload, crash point); non-trivial = crash point strictly inside a batch operation.",
+                &["crash points strictly inside the data writes of a multi-entry batch are excluded from the main search while known finding C08-prefix is open; its probe demonstrates them"],
+            );
+            props::crash::c08(&ctx);
+            ctx.finish(tier.pick(60, 1500))
+        }
+        "C09" => {
+            let ctx = Ctx::new(
+                "C09",
+                tier,
+                seed,
+                "fault_enumeration",
+                "workloads mixing appends, read_next and consuming batch reads at sealed and tail positions, StrictlyAtOnce and AtLeastOnce{1..8}; crash before every I/O event of the consuming reads (index tmp write, fsync, rename) and at events between them; fresh-process reopen and drain. Oracle: StrictlyAtOnce - the first redelivered entry index is exactly the acknowledged consumption (the read in flight may go either way) and the stream is contiguous; AtLeastOnce - never a skip, and for topics consumed through read_next only at most persist_every entries are delivered again. Each evaluation = one (workload, crash point); non-trivial = crash inside a consuming read's persist sequence or after >=1 acknowledged consuming read.",
+                &["same process-crash model as C07"],
+            );
+            props::crash::c09(&ctx);
+            ctx.finish(tier.pick(100, 2000))
+        }
         other => {
             eprintln!("unknown property {}", other);
             2
